@@ -251,22 +251,36 @@ EXTRA = [
     "SELECT a FROM t UNION ALL SELECT b FROM u EXCEPT SELECT c FROM v",
     "select a from t where a = 1 and b like 'x' or c is not null order by a desc nulls last",
     "SELECT a FROM t WHERE a = TRUE AND b = false AND c IS NULL",
+    "SELECT a" + "::int" * 120 + " FROM t",
+    "SELECT $$it\u2019s$$, '\\'x', 'a''b' FROM t",
+    "SELECT a FROM t WHERE b = ARRAY[]::varchar[]",
+    "ALTER TABLE t ADD COLUMN c INT",
+    "MERGE INTO target t USING source s ON t.id = s.id WHEN MATCHED THEN UPDATE SET val = s.val WHEN NOT MATCHED THEN INSERT (id, val) VALUES (s.id, s.val)",
 ]
 
 
 # ------------------------------------------------------------------------------------------------
 # known findings
 
-def known_match(k, sig, shrunk_types):
+def known_match(k, sig, shrunk_types, minimal=None):
+    """a failure (signature of the shrunk statement, its node types, its text) belongs to known finding k iff every
+    criterion the entry lists holds: serialiser family, failure kind, (type, field) of the first tree difference (one pair
+    or a list of pairs), node types that must occur in the minimal statement, a regular expression its text matches"""
     s = k["signature"]
     if s.get("family") and sig[0] not in s["family"]:
         return False
-    if s.get("fail_kind") and s["fail_kind"] != sig[1]:
+    if s.get("fail_kind") and sig[1] not in (s["fail_kind"] if isinstance(s["fail_kind"], list) else [s["fail_kind"]]):
         return False
-    if s.get("type") is not None and (s.get("type"), s.get("field")) != (sig[2], sig[3]):
-        return False
+    if sig[1] == "tree":
+        if s.get("fields") is not None:
+            if [sig[2], sig[3]] not in s["fields"]:
+                return False
+        elif s.get("type") is not None and (s.get("type"), s.get("field")) != (sig[2], sig[3]):
+            return False
     need = set(s.get("node_types", []))
     if need and not need <= set(shrunk_types or []):
+        return False
+    if s.get("sql_regex") and not (minimal is not None and re.search(s["sql_regex"], minimal, re.S)):
         return False
     return True
 
@@ -279,21 +293,33 @@ def witness_outcome(w):
 def run_known(rp, kf):
     for k in kf:
         w = k["witness"]
-        o = witness_outcome(w)
-        fails = [f for f in o.get("fails", []) if not k["signature"].get("family") or SER_FAMILY[OPTS[f["opt"]]["ser"]] in k["signature"]["family"]]
-        if k["status"] == "fixed":
-            ok = o.get("accepted") and not fails
-            rp.obligation("fixed finding stays fixed: " + k["key"], ok, "" if ok else json.dumps(fails[:1])[:300])
-            if not ok:
-                rp.violation(dict(kind="roundtrip", sql=w["sql"], fails=fails[:3], note="defect recorded as fixed in %s is back" % k.get("commit")), "fixed_" + k["key"])
+        if w.get("kind") == "codec":
+            o = vh_lines("c06lit", [], [{"id": "w", "bytes": w["bytes"]}])[0]
+            side = o["lit" if w.get("what", "literal") == "literal" else "ident"]
+            fails_now = not side["same"]
+            detail = json.dumps(side)[:300]
+        elif w.get("kind") == "expr":
+            o = vh_lines("c06expr", [], [{"id": "w", "sql": w["sql"]}])[0]
+            fails_now = (not o.get("accepted")) or bool(o.get("reparse")) or bool(o.get("panic"))
+            detail = (o.get("reparse") or o.get("panic") or "")[:300]
         else:
-            still = o.get("accepted") and any(known_match(k, fail_sig(f), o.get("types")) for f in fails)
-            if still:
+            o = witness_outcome(w)
+            fams = k["signature"].get("family")
+            fails = [f for f in o.get("fails", []) if not fams or SER_FAMILY[OPTS[f["opt"]]["ser"]] in fams]
+            if k["status"] == "known":
+                fails = [f for f in fails if known_match(k, fail_sig(f), o.get("types"), w["sql"])]
+            fails_now = (not o.get("accepted")) or bool(fails) or bool(o.get("panic"))
+            detail = json.dumps(fails[:1])[:300]
+        if k["status"] == "fixed":
+            rp.obligation("fixed finding stays fixed: " + k["key"], not fails_now, "" if not fails_now else detail)
+            if fails_now:
+                rp.violation(dict(w, detail=detail, note="defect recorded as fixed in %s is back" % k.get("commit")), "fixed_" + k["key"])
+        else:
+            if fails_now:
                 rp.known(k["key"], k["what"])
             else:
                 rp.cov["notes"].append("stale known finding (witness holds now): " + k["key"])
-            rp.cov.setdefault("known_witnesses", {})[k["key"]] = {"witness_fails": bool(still)}
-
+            rp.cov.setdefault("known_witnesses", {})[k["key"]] = {"witness_fails": bool(fails_now)}
 
 
 # ------------------------------------------------------------------------------------------------
@@ -496,7 +522,8 @@ def run_tie_codecs(rp, tier, rng):
         idn = o["ident"]
         id_cases.append((c, list(idn["text"].encode("utf-8", "surrogateescape"))))
         raw_special = 46 in c or 42 in c       # '.' and '*' are written raw (switch d_dot_safe; the lone * is all columns)
-        if 10 in c or raw_special:
+        digit_first = 48 <= c[0] <= 57         # known: written raw and read as a number (switch d_digit_safe)
+        if 10 in c or raw_special or digit_first:
             continue
         if not (idn["same"] and idn.get("ty") in ("TyIdent", "TyDQuoted")):
             oracle_bad.append(("identifier", c, idn))
@@ -586,7 +613,7 @@ def run_oracle(rp, tier, rng, kf):
             if sub in seen_sub:
                 continue
             seen_sub.add(sub)
-            hit = [k for k in kf if k["status"] == "known" and known_match(k, sig, stypes)]
+            hit = [k for k in kf if k["status"] == "known" and k["signature"].get("kind") == "roundtrip" and known_match(k, sig, stypes, small)]
             rec = dict(signature=list(sig), count=len(members), minimal=small, node_types=stypes, config=opt_name(OPTS[f["opt"]]),
                        failure={x: f.get(x) for x in ("kind", "type", "field", "path", "a", "b", "code", "out", "detail") if f.get(x)},
                        first_input=it["sql"][:600], first_id=it["id"])
@@ -604,7 +631,7 @@ def run_oracle(rp, tier, rng, kf):
 THEOREMS = ["Props.C06.C06_print_is_render", "Props.C06.C06_print_parse_expr", "Props.C06.C06_format_canonical",
             "Props.C06.C06_format_idempotent", "Props.C06.C06_literal_roundtrip", "Props.C06.C06_ident_roundtrip",
             "Props.C06.C06_refuted_no_parens", "Props.C06.C06_refuted_is_not_null_lost", "Props.C06.C06_refuted_reserved_raw",
-            "Props.C06.C06_refuted_dot_safe", "Props.C06.C06_refuted_ctrlz_escape", "Props.C06.C06_refuted_triple_quote",
+            "Props.C06.C06_refuted_dot_safe", "Props.C06.C06_refuted_digit_safe", "Props.C06.C06_refuted_ctrlz_escape", "Props.C06.C06_refuted_triple_quote",
             "Props.C06.C06_refuted_drop_nul"]
 
 
@@ -642,7 +669,7 @@ def run(tier):
                           failure=g["failure"], first_input=g["first_input"]),
                      "rt_%s_%s_%s_%s_%d" % (tuple(g["signature"]) + (new_groups.index(g),)))
     # expression-level oracle of the tie inputs (independent of the model)
-    poracle_new = [x for x in poracle if not any(k["status"] == "known" and k["signature"].get("expr_shape") and re.search(k["signature"]["expr_shape"], x[1]) for k in kf)]
+    poracle_new = [x for x in poracle if not any(k["status"] == "known" and k["signature"].get("expr_regex") and re.search(k["signature"]["expr_regex"], x[1]) for k in kf)]
     rp.obligation("oracle: SQL() of every parsed tie expression re-parses to the same expression tree", not poracle_new, "%d failures" % len(poracle_new))
     for cid, sql, why in poracle_new[:5]:
         rp.violation(dict(kind="expr", sql=sql, why=why), "expr_" + re.sub(r"\W+", "_", cid))
@@ -667,7 +694,7 @@ def run(tier):
 
 def replay(path):
     r = json.load(open(path))
-    if r.get("kind") == "roundtrip":
+    if r.get("kind") == "roundtrip" or (r.get("sql") and not r.get("kind")):
         o = run_rt([{"id": "r", "sql": r["sql"], "max_fails": 20}])[0]
         sig = tuple(r.get("signature") or ())
         bad = (not o.get("accepted")) or [f for f in o.get("fails", []) if not sig or fail_sig(f) == sig]
